@@ -78,26 +78,39 @@ class BreakerModel:
 
 
 class BudgetWindowModel:
+    """Grants are kept as (time, tokens) so bulk costs of 10**5 stay cheap."""
+
     def __init__(self, max_retries: int, window: int) -> None:
         self.max = max_retries
         self.window = window
-        self.grants: list = []
+        self._g: list = []
+
+    @property
+    def grants(self) -> list:
+        return [t for t, n in self._g for _ in range(min(n, 50))]  # for messages only (truncated per grant)
+
+    @grants.setter
+    def grants(self, times) -> None:
+        self._g = [(t, 1) for t in times]
+
+    def live_count(self, t: int) -> int:
+        return sum(n for x, n in self._g if t - x < self.window)
 
     def live(self, t: int) -> list:
-        return [x for x in self.grants if t - x < self.window]
+        return [x for x, n in self._g if t - x < self.window]
 
     def consume(self, t: int, cost: int = 1) -> bool:
-        if len(self.live(t)) + cost > self.max:
+        if self.live_count(t) + cost > self.max:
             return False
-        self.grants.extend([t] * cost)
+        self._g.append((t, cost))
         return True
 
     def remaining(self, t: int) -> int:
-        return max(self.max - len(self.live(t)), 0)
+        return max(self.max - self.live_count(t), 0)
 
     def window_bound_ok(self) -> bool:
-        """For every grant time g: number of grants in (g - window, g] <= max."""
-        for x in self.grants:
-            if sum(1 for y in self.grants if x - self.window < y <= x) > self.max:
+        """For every grant time g: number of tokens granted in (g - window, g] <= max."""
+        for x, _ in self._g:
+            if sum(n for y, n in self._g if x - self.window < y <= x) > self.max:
                 return False
         return True
